@@ -71,7 +71,7 @@ Definition write_at (f : bytes) (off : nat) (d : bytes) : bytes :=
 (* os.File.Truncate *)
 Definition resize (f : bytes) (n : nat) : bytes := firstn n f ++ repeat 0%N (n - List.length f).
 
-Inductive rerr := XStore (code : N) | XNoData | XNegative.
+Inductive rerr := XStore (code : N) | XNoData | XNegative | XUnexpectedEOF (* io.ErrUnexpectedEOF *).
 Inductive request := RqRead (off : Z) (len : nat) | RqLoad (i : nat) | RqSave.
 Inductive result := ROk (data : bytes) (eof : bool) | RErr (e : rerr) | RDone.
 
@@ -83,11 +83,11 @@ Definition file_read (f : bytes) (off : Z) (len : nat) : result :=
     let n := Nat.min len (List.length f - o) in
     ROk (slice f o n) (n <? len)%nat.
 
-(* What ReadAt hands to its caller when loadRange fails: (0, err).  If the store's error IS io.EOF (code_bare_eof), the
-   caller cannot tell this from a read that reached the end of the file: it is the observation (n = 0, io.EOF). *)
+(* What ReadAt hands to its caller when loadRange fails: (0, err), except that a store error that IS io.EOF
+   (code_bare_eof) is reported as io.ErrUnexpectedEOF: "if err == io.EOF { err = io.ErrUnexpectedEOF }". *)
 Definition read_error (e : rerr) : result :=
   match e with
-  | XStore c => if N.eqb c code_bare_eof then ROk [] true else RErr e
+  | XStore c => if N.eqb c code_bare_eof then RErr XUnexpectedEOF else RErr e
   | _ => RErr e
   end.
 
